@@ -16,7 +16,16 @@ RULE = ('Union of the C01 (method product + dense interior sweeps), C02 '
         ' and encode.field_table/field_array/encode_table_value is compared '
         'byte for byte with mc.refcodec (written from the grammar, imports '
         'nothing from pamqp). A case is (entry point, input); non-trivial = '
-        'not the all-default input.')
+        'not the all-default input.'
+        ' '
+        'Also: field names held in str subclasses ((str, Enum) '
+        'members whose names sort opposite to their values, StrEnum, '
+        '__str__/__repr__/__format__ overriders), every rotation of '
+        '1..5 keys, in tables, nested tables, arguments and headers, '
+        'against the reference bytes of the plain texts; 80 '
+        'look-alike strings in every string position; arrays of '
+        'same-keyed dicts; key pairs whose code-point and UTF-16 '
+        'orders differ.')
 BOUNDS = {'quick': {'same as': 'C01 + C02 + C03 quick'},
           'thorough': {'same as': 'C01 + C02 + C03 thorough'}}
 ASSUMPTIONS = ['mc/refcodec.py follows the AMQP 0-9-1 grammar and the '
